@@ -61,6 +61,45 @@ def _truncating_immediates(tree: ast.AST) -> list[ast.Call]:
     return out
 
 
+def check_stack_params(idx: Index, rep: Report) -> None:
+    """The k-th stack-carried parameter (k = 0 for the 7th input) lives at [rsp + 8 * (k + 1)] on entry.  The loader
+    consumes the block arguments in position order with a counter: counter and position stay in step only if every
+    stack parameter goes through the loop and nothing else removes one."""
+    r = rep.rule("C21.R6", "stack-carried parameters are loaded from 8 * (position + 1) above rsp: the loading loop runs once per stack parameter of the signature, in order, and no stack parameter is removed outside it", floor=2)
+    from ..polyform import canon as pcanon
+
+    f = idx.func(FUNC, "LowerFuncOp.match_and_rewrite")
+    cfg = CFG(f.node)
+    loads = [c for c in calls_in(f.node) if call_attr(c) == "DM_MovOp" and any(k.arg == "memory_offset" for k in c.keywords)]
+    if len(loads) != 1:
+        raise AnalysisError(f"{f.fq}: load of a stack-carried parameter (DM_MovOp with memory_offset) not found")
+    ld = loads[0]
+    lp = next((w for w in walk_local(f.node) if isinstance(w, ast.For) and any(x is ld for x in ast.walk(w))), None)
+    if lp is None or not isinstance(lp.target, ast.Name):
+        raise AnalysisError(f"{f.fq}: the stack parameter load is not in a counting loop")
+    i = lp.target.id
+    off = next(k.value for k in ld.keywords if k.arg == "memory_offset")
+    at = cfg.node_of(ld)
+    if pcanon(resolved_text(cfg, off, at)) == pcanon(f"STACK_SLOT_SIZE_BYTES * ({i} + 1)"):
+        r.ok(f.fq + ":offset", f"{f.module.relpath}:{ld.lineno} offset = slot * ({i} + 1)")
+    else:
+        r.fail(f.fq + ":offset", Finding("C21.R6", f.fq, "stack-offset", f"the {i}-th stack parameter is loaded from `{unparse(off)}`; the System V layout puts it at STACK_SLOT_SIZE_BYTES * ({i} + 1) above rsp (return address first)", f"{f.module.relpath}:{ld.lineno}"))
+    it = lp.iter
+    n_txt = resolved_text(cfg, it.args[0], cfg.node_of(lp)) if isinstance(it, ast.Call) and unparse(it.func) == "range" and len(it.args) == 1 else None
+    want = {pcanon("len(op.function_type.inputs.data) - MAX_REG_PASSING_INPUTS"), pcanon("len(op.function_type.inputs) - MAX_REG_PASSING_INPUTS"), pcanon("len(op.args) - MAX_REG_PASSING_INPUTS")}
+    if n_txt is not None and pcanon(n_txt) in want:
+        r.ok(f.fq + ":count", f"{f.module.relpath}:{lp.lineno} one iteration per stack parameter of the signature")
+    else:
+        r.fail(f.fq + ":count", Finding("C21.R6", f.fq, "stack-param-count", f"the loading loop runs `{unparse(it)}` times (resolved: {n_txt}); it must run once per stack-carried parameter of the signature (number of inputs - MAX_REG_PASSING_INPUTS), otherwise the counter that gives the stack slot no longer matches the parameter's position", f"{f.module.relpath}:{lp.lineno}"))
+    # erasures of block arguments outside the two loading loops
+    for c in calls_in(f.node):
+        if call_attr(c) == "erase_arg":
+            owner = next((w for w in walk_local(f.node) if isinstance(w, ast.For) and any(x is c for x in ast.walk(w))), None)
+            in_loader = owner is lp or (owner is not None and any(call_attr(k) in ("DS_MovOp", "DM_MovOp") for k in calls_in(owner)))
+            if not in_loader:
+                r.fail(f.fq + ":erase", Finding("C21.R6", f.fq, "stack-param-removed", f"`{unparse(c)}` removes a block argument outside the loading loops: the stack parameters after it are loaded from the slot of an earlier parameter", f"{f.module.relpath}:{c.lineno}"))
+
+
 def check(idx: Index, rep: Report, tier: str) -> str:
     r = rep.rule("C21.R1", "argument, return and callee-saved register tables are those of the System V AMD64 ABI", floor=3)
     by_name = _int_dict(idx, REG, "X86_INDEX_BY_NAME")
@@ -165,6 +204,7 @@ def check(idx: Index, rep: Report, tier: str) -> str:
         else:
             r.ok(rel, f"{rel}: no immediate is built with truncate_bits=True")
 
+    rep.run(check_stack_params, idx, rep)
     return (
         "Reference-table agreement of the ABI tables (System V AMD64 psABI) and register encoding tables, pairing rule "
         "for prologue pushes / epilogue pops, stem agreement of the arith->x86 op table, immediate-truncation lint. Everything "
